@@ -43,6 +43,15 @@ pub fn c02_runs(tier: Tier) -> Vec<(HistCfg, Caps)> {
                     cfg(m, 2, 4, b.clone(), vec![4, 2], obs.clone(), &format!("{}-d2", m.short())),
                     caps(tier, 8, 0),
                 ));
+                if m.is_bq() {
+                    // real (non-degenerate) quantised planes, with and without padding bits
+                    for d in [64usize, 60] {
+                        runs.push((
+                            cfg(m, d, 4, b.clone(), vec![4, 1], obs.clone(), &format!("{}-d{d}", m.short())),
+                            caps(tier, 8, 0),
+                        ));
+                    }
+                }
             }
         }
         Tier::Thorough => {
@@ -248,6 +257,13 @@ pub fn c03_runs(tier: Tier) -> Vec<(HistCfg, Caps)> {
                     cfg(m, 2, 5, wide.clone(), vec![5, 0], obs.clone(), &format!("{}-d2-buckets", m.short())),
                     caps(tier, 7, 0),
                 ));
+                if m == Metric::BqCosine || m == Metric::BqEuclidean {
+                    // budget-limited search over real quantised planes
+                    runs.push((
+                        cfg(m, 64, 5, wide.clone(), vec![5, 0], obs.clone(), &format!("{}-d64-buckets", m.short())),
+                        caps(tier, 7, 0),
+                    ));
+                }
             }
         }
         Tier::Thorough => {
